@@ -63,7 +63,7 @@ var (
 	vmErrorType        = reflect.TypeOf(&Error{})
 	contextType        = reflect.TypeOf((*context.Context)(nil)).Elem()
 
-	nilValue                  = reflect.New(reflect.TypeOf((*interface{})(nil)).Elem()).Elem()
+	nilValue                  = reflect.ValueOf(struct{ V interface{} }{}).Field(0)
 	trueValue                 = reflect.ValueOf(true)
 	falseValue                = reflect.ValueOf(false)
 	int64Type                 = reflect.TypeOf(int64(0))
